@@ -2,8 +2,13 @@ pub mod common;
 pub mod c01;
 pub mod c02;
 pub mod c03;
+pub mod c04;
 pub mod c05;
+pub mod c06;
 pub mod c07;
+pub mod c08;
+pub mod c09;
+pub mod c10;
 pub mod c11;
 
 use crate::runner::{replay_prop, run_prop, Ctx};
@@ -22,8 +27,13 @@ pub fn dispatch(id: &str, ctx: &Ctx, replay: Option<&str>) -> i32 {
     "C01" => go!(c01::C01, ctx, replay),
     "C02" => go!(c02::C02, ctx, replay),
     "C03" => go!(c03::C03, ctx, replay),
+    "C04" => go!(c04::C04, ctx, replay),
     "C05" => go!(c05::C05, ctx, replay),
+    "C06" => go!(c06::C06, ctx, replay),
     "C07" => go!(c07::C07, ctx, replay),
+    "C08" => go!(c08::C08, ctx, replay),
+    "C09" => go!(c09::C09, ctx, replay),
+    "C10" => go!(c10::C10, ctx, replay),
     "C11" => go!(c11::C11, ctx, replay),
     _ => {
       eprintln!("unknown property {id}");
